@@ -13,43 +13,36 @@
 (* implementation for arguments 0..H is a sequence t of length H+1 and     *)
 (* t[x+1] is the value at x; At(t, x) hides the shift.                     *)
 (***************************************************************************)
-EXTENDS Integers, Sequences, FiniteSets, TLC
+EXTENDS Integers, Sequences, FiniteSets, TLC, SequencesExt, FiniteSetsExt
 
 NONE == -1
 
-Max(a, b) == IF a >= b THEN a ELSE b
-Min(a, b) == IF a <= b THEN a ELSE b
+MaxOf(a, b) == IF a >= b THEN a ELSE b
+MinOf(a, b) == IF a <= b THEN a ELSE b
 Monus(a, b) == IF a >= b THEN a - b ELSE 0          \* saturating subtraction
 CeilDiv(a, b) == (a + b - 1) \div b                 \* b > 0, a >= 0
 
-RECURSIVE SetMaxR(_, _)
-SetMaxR(S, acc) == IF S = {} THEN acc
-                   ELSE LET x == CHOOSE y \in S : TRUE
-                        IN SetMaxR(S \ {x}, Max(acc, x))
-SetMax(S) == SetMaxR(S, 0)                          \* max of a set of naturals, 0 for {}
+\* NOTE on evaluation cost: TLC evaluates RECURSIVE operators at ~60k calls/s but
+\* quantifiers, set comprehensions and the Java-overridden folds of the
+\* CommunityModules at ~2M elements/s, so all bulk helpers are folds.
 
-RECURSIVE SetMinR(_, _)
-SetMinR(S, acc) == IF S = {} THEN acc
-                   ELSE LET x == CHOOSE y \in S : TRUE
-                        IN SetMinR(S \ {x}, Min(acc, x))
-SetMin(S) == LET x == CHOOSE y \in S : TRUE IN SetMinR(S \ {x}, x)   \* S # {}
+SetMax(S) == FoldSet(LAMBDA x, acc : IF x >= acc THEN x ELSE acc, 0, S)   \* 0 for {}
+SetMin(S) == LET x0 == CHOOSE y \in S : TRUE                              \* S # {}
+             IN FoldSet(LAMBDA x, acc : IF x <= acc THEN x ELSE acc, x0, S)
 
-RECURSIVE SumSeqR(_, _, _)
-SumSeqR(s, i, acc) == IF i > Len(s) THEN acc ELSE SumSeqR(s, i + 1, acc + s[i])
-SumSeq(s) == SumSeqR(s, 1, 0)
+SumSeq(s) == FoldLeft(LAMBDA acc, x : acc + x, 0, s)
+MaxSeq(s) == FoldLeft(LAMBDA acc, x : IF x >= acc THEN x ELSE acc, 0, s)   \* 0 for << >>
 
-RECURSIVE SumFnR(_, _, _, _)
-SumFnR(F(_), i, n, acc) == IF i > n THEN acc ELSE SumFnR(F, i + 1, n, acc + F(i))
-SumFn(F(_), n) == SumFnR(F, 1, n, 0)                \* F(1) + ... + F(n)
+IntSeq(lo, hi) == [i \in 1..MaxOf(0, hi - lo + 1) |-> lo + i - 1]            \* <<lo, ..., hi>>
 
-RECURSIVE MaxFnR(_, _, _, _)
-MaxFnR(F(_), i, n, acc) == IF i > n THEN acc ELSE MaxFnR(F, i + 1, n, Max(acc, F(i)))
-MaxFn(F(_), lo, hi) == MaxFnR(F, lo, hi, 0)         \* max over lo..hi, 0 if empty
+SumFn(F(_), n) == FoldLeft(LAMBDA acc, i : acc + F(i), 0, IntSeq(1, n))    \* F(1) + ... + F(n)
+MaxFn(F(_), lo, hi) ==                                                    \* max over lo..hi, 0 if empty
+    FoldLeft(LAMBDA acc, i : LET v == F(i) IN IF v >= acc THEN v ELSE acc, 0, IntSeq(lo, hi))
 
 \* least x in lo..hi with P(x), NONE if there is none (linear scan -- "naive")
-RECURSIVE LeastR(_, _, _)
-LeastR(P(_), x, hi) == IF x > hi THEN NONE ELSE IF P(x) THEN x ELSE LeastR(P, x + 1, hi)
-Least(P(_), lo, hi) == LeastR(P, lo, hi)
+Least(P(_), lo, hi) ==
+    LET idx == SelectInSeq(IntSeq(lo, hi), P)
+    IN IF idx = 0 THEN NONE ELSE lo + idx - 1
 
 \* tables -------------------------------------------------------------------
 At(t, x) == t[x + 1]
